@@ -2,6 +2,7 @@
   Frrs.Proofs.Stanza — what the main loop does with the `data` line of a blob stanza, for every payload.
 -/
 import Frrs.Filter
+import Frrs.Proofs.Codec
 set_option linter.unusedSimpArgs false
 namespace Frrs
 
@@ -63,5 +64,87 @@ theorem blob_mark_line (o : FOpts) (s : FState) (digits inp : Bytes) (n fuel : N
     step o s (b!"mark :" ++ digits ++ [B.lf]) inp fuel =
       .cont { s with lastBlobMark := some n, blobBuf := (b!"mark :" ++ digits ++ [B.lf]) :: s.blobBuf } inp := by
   simp (config := {decide := true}) [step, hs, hb, startsWith, hd]
+
+/-! ### inside a commit -/
+
+/-- **the commit message**: the `data` line of a commit and the `n` bytes that follow — whatever they contain — are
+    buffered as a recomputed length header followed by exactly `rewriteMessage o payload`; the next line is read right after
+    the payload -/
+theorem commit_message_rewritten (o : FOpts) (s : FState) (line inp payload rest : Bytes) (n : Nat)
+    (hm : parseMarkLine line = none) (hl : startsWith line b!"data " = true)
+    (hh : parseDataHeader line = some n) (hr : readExact n inp = some (payload, rest)) :
+    commitLine o s line inp =
+      .cont (s.push (dataHeader (rewriteMessage o payload).length ++ rewriteMessage o payload)) rest := by
+  obtain ⟨tl, rfl⟩ := startsWith_data_cons hl
+  have hl' : startsWith tl [97, 116, 97, 32] = true := by simpa [startsWith] using hl
+  simp (config := {decide := true}) [commitLine, hm, startsWith, hl', hh, hr]
+
+/-- a header line the filter has no business with (`encoding …`, `gpgsig …`, a continuation line) is buffered verbatim -/
+theorem commit_other_line_verbatim (o : FOpts) (s : FState) (line inp : Bytes)
+    (hm : parseMarkLine line = none) (h1 : startsWith line b!"original-oid " = false) (h2 : startsWith line b!"data " = false)
+    (h3 : startsWith line b!"from " = false) (h4 : startsWith line b!"merge " = false)
+    (h5 : (startsWith line b!"M " || startsWith line b!"D " || startsWith line b!"C " || startsWith line b!"R " ||
+            line == b!"deleteall\n") = false) :
+    commitLine o s line inp = .cont (s.push line) inp := by
+  unfold commitLine
+  simp only [hm, h1, h2, h3, h4, h5, Bool.false_eq_true, if_false]
+
+/-- a file-change line goes through `handleFileChangeLine` — selected and renamed, or dropped — and nothing else -/
+theorem commit_change_line (o : FOpts) (s : FState) (line inp : Bytes)
+    (hm : parseMarkLine line = none) (h1 : startsWith line b!"original-oid " = false) (h2 : startsWith line b!"data " = false)
+    (h3 : startsWith line b!"from " = false) (h4 : startsWith line b!"merge " = false)
+    (h5 : (startsWith line b!"M " || startsWith line b!"D " || startsWith line b!"C " || startsWith line b!"R " ||
+            line == b!"deleteall\n") = true) :
+    commitLine o s line inp =
+      (match handleFileChangeLine o.path line with
+       | some l => .cont { s.push l with hasChanges := true } inp
+       | none => .cont s inp) := by
+  unfold commitLine
+  simp only [hm, h1, h2, h3, h4, h5, Bool.false_eq_true, if_false, if_true]
+  cases handleFileChangeLine o.path line <;> rfl
+
+/-- a line inside a commit that is neither an `M` line, nor the blank line that ends the commit, nor the payload header of
+    an inline blob, is handed to `commitLine` after the identity rules have seen it -/
+theorem inCommit_line (o : FOpts) (s : FState) (line inp : Bytes)
+    (h1 : startsWith line b!"M " = false) (h2 : (line == [B.lf]) = false)
+    (h3 : (startsWith line b!"data " && s.pendingInline.isSome) = false) :
+    stepInCommit o s line inp = commitLine o s (rewriteIdentityLine o line) inp := by
+  unfold stepInCommit mDropOf
+  simp only [h1, h2, h3, Bool.false_eq_true, if_false, Bool.false_and]
+
+/-- the identity rules leave every line alone that is not an `author`/`committer` line -/
+theorem rewriteIdentityLine_other (o : FOpts) (line : Bytes) (ha : startsWith line kwAuthor = false)
+    (hc : startsWith line kwCommitter = false) : rewriteIdentityLine o line = line := by
+  simp [rewriteIdentityLine, ha, hc]
+
+/-! ### ref-naming lines outside commits -/
+
+theorem stripLf_line (l : Bytes) : stripLf (l ++ [B.lf]) = l := by
+  simp [stripLf]
+
+/-- **a branch reset names the renamed branch**: outside a commit, the line `reset refs/heads/<name>` is written as
+    `reset <renamed>` when `--branch-rename` applies to it (and the rename is recorded for the ref-map), verbatim otherwise;
+    in both cases the branch is noted as updated under its final name -/
+theorem branch_reset_line (o : FOpts) (s : FState) (name inp : Bytes)
+    (hn : startsWith name refsHeads = true) (ht : startsWith name refsTags = false) :
+    tailRules o s (b!"reset " ++ name ++ [B.lf]) inp =
+      (match renameIn refsHeads o.refs.branchRename name with
+       | some new_ =>
+         .cont ({ s with refRenames := setInsert (name, new_) s.refRenames,
+                         updatedBranchRefs := bsetInsert new_ s.updatedBranchRefs,
+                         pendingBranchReset := some new_ }.emit (b!"reset " ++ new_ ++ [B.lf])) inp
+       | none =>
+         .cont ({ s with updatedBranchRefs := bsetInsert name s.updatedBranchRefs,
+                         pendingBranchReset := some name }.emit (b!"reset " ++ name ++ [B.lf])) inp) := by
+  have hr : resetName (b!"reset " ++ name ++ [B.lf]) = name := by
+    simp only [resetName]
+    have : (b!"reset " ++ name ++ [B.lf]).drop 6 = name ++ [B.lf] := by simp
+    rw [this, stripLf_line]
+  unfold tailRules
+  have hd : startsWith (b!"reset " ++ name ++ [B.lf]) b!"data " = false := by simp (config := {decide := true}) [startsWith]
+  have hdone : (b!"reset " ++ name ++ [B.lf] == b!"done\n") = false := by simp (config := {decide := true})
+  have hreset : startsWith (b!"reset " ++ name ++ [B.lf]) b!"reset " = true := by simp [startsWith]
+  simp only [hd, hdone, hreset, hr, ht, hn, Bool.false_eq_true, if_false, Bool.and_false, Bool.and_true, Bool.true_and, if_true]
+  cases renameIn refsHeads o.refs.branchRename name <;> rfl
 
 end Frrs
